@@ -22,7 +22,7 @@ RULE = ('A case is one rule call with generated premises on one of three drivers
 ASSUMPTIONS = ['instantiation maps whose textbook result is undefined only through a metavariable-dependent potential capture are not judged']
 FLOORS = {'quick': {'mp:applicable': 1000, 'mp:inapplicable:antecedent_mismatch': 1000, 'mp:inapplicable:not_implication': 300, 'mp:implication_only_after_expansion': 300,
                     'gen:applicable': 1000, 'gen:inapplicable:variable_free': 1000, 'gen:inapplicable:not_implication': 200, 'gen:hidden_under_notation': 300,
-                    'inst:applicable': 1000, 'inst:inapplicable:constraint': 300, 'inst:inapplicable:capture': 100, 'driver:basic': 3000, 'driver:stateful': 1500, 'driver:proofexp': 1500}}
+                    'inst:applicable': 1000, 'inst:inapplicable:constraint': 300, 'inst:inapplicable:capture': 100, 'inst:partial_node_premise': 100, 'driver:basic': 3000, 'driver:stateful': 1500, 'driver:proofexp': 1500}}
 FLOORS['thorough'] = dict(FLOORS['quick'])
 
 
@@ -255,10 +255,33 @@ def shard(ctx):
                 reason = 'constraint'; fam = str(ex)
             except tb.Capture as ex:
                 reason = 'capture'; fam = 'ex' if str(ex).startswith('evar') else 'mu'
-                if not _definite(conc_e, delta_e):
+                # under an existential binder the toolkit refuses binder by binder, exactly like the checker (A6), so the documented
+                # rule is simply inapplicable; under a mu binder it has no judgement at all (known finding) and only a definite
+                # capture is reported there
+                if fam == 'mu' and not _definite(conc_e, delta_e):
                     ctx.count('inst:potential_capture_not_judged')
                     continue
             conc = rp.fold(conc_e, rng, rng.choice((0.0, 0.6)))
+            if forced is None and rng.random() < 0.2 and len(tb.metavar_ids(conc_e)) >= 1:
+                # the premise is spelled as a partial notation node: only some metavariables are bound by the node itself
+                from frozendict import frozendict
+                base_e = rp.rand_term(rng, rng.randint(1, 2), meta=True, notation=0.2, mvs=(0, 1, 2), substs=False, constrained=0.0)
+                bids = sorted(tb.metavar_ids(base_e))
+                if len(bids) >= 2:
+                    keys_n = [bids[0]] if rng.random() < 0.7 else bids[:-1]
+                    inner_e = {i: rp.rand_term(rng, 1, meta=True, notation=0.1, mvs=(0, 1, 2), substs=False, constrained=0.0) for i in keys_n}
+                    conc_e = tb.inst(base_e, inner_e, 'naive')
+                    conc = P.Instantiate(rp.fold(base_e, rng, 0.3), frozendict({i: rp.fold(v, rng, 0.3) for i, v in inner_e.items()}))
+                    ids2 = sorted(tb.metavar_ids(conc_e) | set(bids))
+                    delta_e = {i: rp.rand_term(rng, rng.randint(0, 1), meta=True, notation=0.1, mvs=(0, 1, 2), substs=False, constrained=0.0) for i in ids2 if rng.random() < 0.8}
+                    if not delta_e:
+                        continue
+                    try:
+                        exp = tb.inst(conc_e, delta_e, 'strict', check='doc')
+                        reason = None
+                    except tb.Undefined:
+                        continue
+                    ctx.count('inst:partial_node_premise')
             delta = {i: rp.fold(v, rng, 0.4) for i, v in delta_e.items()}
             ctx.case(('inst', tb.show(conc_e), tuple(sorted((i, tb.show(v)) for i, v in delta_e.items()))), nontrivial=True)
             out = D.call(driver, 'inst', [conc], delta)
